@@ -69,6 +69,7 @@ func (f *FS) Read(name string) ([]byte, error) {
 // Reader is an io.Reader over a byte string that delivers tape-chosen short
 // reads and, optionally, an error at a given offset.
 type Reader struct {
+	Yield  bool // every Read is a scheduling point
 	Data   []byte
 	pos    int
 	Mode   int // 0 whole, 1 one byte, 2 random, 3 at most K
@@ -87,6 +88,9 @@ func NewReader(data []byte, mode, k int) *Reader {
 
 // Read implements io.Reader; it never returns 0, nil for a non-empty buffer.
 func (r *Reader) Read(p []byte) (int, error) {
+	if r.Yield {
+		rt.Yield() // a read from storage takes time: other tasks of the process run meanwhile
+	}
 	r.Reads++
 	if len(p) == 0 {
 		return 0, nil
@@ -123,5 +127,8 @@ func (r *Reader) Read(p []byte) (int, error) {
 	}
 	copy(p, r.Data[r.pos:r.pos+n])
 	r.pos += n
+	if r.Yield {
+		rt.Progress()
+	}
 	return n, nil
 }
